@@ -60,11 +60,11 @@ pub fn check(h: &History, st: &mut Stats) -> CheckResult {
     let ops: Vec<&Op> = h.ops.iter().chain(std::iter::once(&closing)).collect();
 
     for (opi, op) in ops.iter().enumerate() {
-        if let Op::Recycle { kind: k2, eng: e2, cfg } = op {
+        if let Op::Recycle { kind: k2, eng: e2, cfg, same } = op {
             if kind == Kind::Rs {
                 continue;
             }
-            let c2 = cfg.orient(*k2);
+            let c2 = recycle_cfg(*k2, cfg, *same, cur);
             let rec = |o: Obj| match crate::runner::no_panic(|| o.recycle(*k2, *e2, c2)) {
                 Ok(Ok(o)) => Ok(o),
                 Ok(Err(e)) => Err(format!("op {opi}: new(Some(work)) with supported configuration {c2:?} failed: {e:?}")),
